@@ -264,10 +264,12 @@ pub fn campaign(id: &str, tier: Tier) -> SeqCampaign {
         }
         "C16" => {
             let bias = Bias {
-                max_ops: tier.pick(60, 140),
+                max_ops: tier.pick(90, 160),
                 persistent: Some(true),
                 cache: Some(true),
-                flush: 12,
+                get_weight: 45,
+                few_keys: true,
+                flush: 18,
                 reopen: 3,
                 big_values: false,
                 multi_block: 4,
